@@ -48,7 +48,7 @@ func main() {
 	if *list {
 		type item struct {
 			ID, Title, Explanation, Technique, Level, Note, DesignRef string
-			NotDecided, Trusted, Assumptions                        []string
+			NotDecided, Trusted, Assumptions                          []string
 		}
 		var ids []string
 		for id := range registry {
